@@ -349,8 +349,9 @@ def compare(real, model):
                 return "row differs: real=%r model=%r" % (a, b)
             if abs(int(fa[8]) - int(fb[8])) > 2 + int(fa[1]) // 1000:
                 return "row start time differs: real=%r model=%r" % (a, b)
-            # frame_info.time is an int (ms) built on the int-truncated xxo_info[].time: compare whole ms, +-1
-            if abs(int(fa[9]) // 1000 - int(fb[9]) // 1000) > 1:
+            # frame_info.time is an int (ms): (int)(double)(int-truncated xxo_info[].time + sum of frame_time);
+            # one ms from the truncated order time, one more when the exact value is a whole number of ms
+            if abs(int(fa[9]) // 1000 - int(fb[9]) // 1000) > 2:
                 return "frame_info.time differs: real=%r model=%r" % (a, b)
         else:
             if fa != fb:
@@ -609,7 +610,7 @@ def run(ck):
     ck.assumptions += [
         "time_factor = 10, rrate = 250, XMP_FLAGS_VBLANK off (checked per module by the harness)",
         "patterns have 1..256 rows (row_limit 512 of the scan is then unreachable without loops; checked per module)",
-        "IEEE double sums are compared with tolerance (2 us + 1 us per 100000 frames / 1000 rows; +-1 on int-truncated ms values)",
+        "IEEE double sums are compared with tolerance (2 us + 1 us per 100000 frames / 1000 rows; +-1 on int-truncated ms values, +-2 on frame_info.time)",
     ]
     if not ck.violations and not ck.unproved_items:
         shutil.rmtree(wd, ignore_errors=True)
